@@ -377,6 +377,7 @@ def _np_random_normal(ex, args, kwargs, node):
     ex.unsupported(node, 'random.normal(%s)' % v.kind)
   a = z3.Const(ctx.sym('rnd'), sort_named('Arr'))
   ctx.assume(_LEN_ARR(a) == n)
+  ctx.assume(z3.Function('ndim_Arr', sort_named('Arr'), z3.IntSort())(a) == 1)
   return VOpaque(a, 'Arr')
 
 
@@ -407,3 +408,6 @@ def _namedtuple(ex, args, kwargs, node):
   if not (isinstance(name, VStr) and isinstance(fields, VTuple)):
     ex.unsupported(node, 'namedtuple with non-literal fields')
   return VNamedTupleType(name.s, [f.s for f in fields.items])
+
+
+from mmverif.engine import numeric_ledger as _numeric   # registers numpy/scipy
